@@ -21,7 +21,8 @@ import H2V.Lemmas.CodecWire
      `loadReset_*` + `loadReset_stream_zero`, `loadGoAway_*` + `loadGoAway_nonzero_stream`,
      `loadPriority_*` + `loadPriority_self_dependency`
      header frames (CodecLoadHeaders): `loadHeadersHead_{sound,complete}`,
-     `loadPushPromiseHead_{sound,complete}` + `loadPushPromiseHead_four_octets`
+     `loadPushPromiseHead_{sound,complete,error}` (exact since the `< 5` fix),
+     summaries `loadPushPromiseHead_exact`, `loadHeadersHead_exact_except_self_dependency`
   C. reader chunk invariance                            CodecReader
      `drain_fuel`, `drain_app`, `feed_append`, `feed_chunks`, `feed_chunks_state`,
      `rx_oversize_rejected`, `rx_oversize_rejected_early`
